@@ -1,74 +1,98 @@
-"""Extractor: how provenance rows are written -> SFV/Gen/ProvGuards.lean
-
-* `SqliteDatabase.add_provenance`: the column order of the INSERT and the order of the tuple built per input
-  (`(i, token)` = dependee first);
-* `BaseStep._persist_token`: the token is saved (gets its id) BEFORE `add_provenance` is called, a `None` input id raises,
-  and `add_provenance` receives the given input ids and the new token's id.
-"""
+"""Extractor for C18: the shape of the `while token_frontier:` loop of `ProvenanceGraph.build_graph` (streamflow/recovery/utils.py) —
+the facts the hand-written model `SFV/Model/ProvGraph.lean` (`visit`, `enqueue`, `bfs`) relies on -> SFV/Gen/ProvGuards.lean"""
 from __future__ import annotations
 
 import ast
 import os
-import re
 
-from sfv.translate.expr import TranslateError, find_nodes, parse_function
+from sfv.translate.expr import TranslateError, parse_function
 
 TARGET = "SFV/Gen/ProvGuards.lean"
 
 
+def _u(n) -> str:
+    return ast.unparse(n).replace(" ", "")
+
+
+def _w(n) -> str:
+    """unparsed walrus expression without the optional outer parentheses"""
+    t = _u(n)
+    return t[1:-1] if t.startswith("(") and t.endswith(")") else t
+
+
+def _no_log(stmts):
+    return [s for s in stmts if not (isinstance(s, ast.If) and "logger.isEnabledFor" in _u(s.test))
+            and not (isinstance(s, ast.Expr) and isinstance(s.value, ast.Constant))]
+
+
+def extract(repo: str) -> dict:
+    fn = parse_function(os.path.join(repo, "streamflow/recovery/utils.py"), "build_graph", "ProvenanceGraph")
+    body = _no_log(fn.body)
+    d = {}
+    init = [s for s in body if isinstance(s, ast.Assign) and _u(s.targets[0]) == "token_frontier"]
+    d["frontierFromInputs"] = len(init) == 1 and _u(init[0].value) == "deque(inputs)"
+    pre = [s for s in body if isinstance(s, ast.For)]
+    d["inputsAreNodes"] = len(pre) == 1 and _u(pre[0].iter) == "token_frontier" and [_u(x) for x in pre[0].body] == [f"self.add({_u(pre[0].target)})"]
+    loops = [s for s in body if isinstance(s, ast.While)]
+    if len(loops) != 1 or _u(loops[0].test) != "token_frontier":
+        raise TranslateError("build_graph: expected exactly one `while token_frontier:` loop")
+    lb = _no_log(loops[0].body)
+    pops = [s for s in lb if isinstance(s, ast.Assign) and _u(s.targets[0]) == "token"]
+    d["fifo"] = len(pops) == 1 and _u(pops[0].value) == "token_frontier.popleft()" and lb.index(pops[0]) == 0
+    ifs = [s for s in lb if isinstance(s, ast.If)]
+    if len(ifs) != 1:
+        raise TranslateError("build_graph: expected one if/elif/else per popped token")
+    top = ifs[0]
+    d["stopOnRecoveringJob"] = (_u(top.test) == "isinstance(token,JobToken)andawaitself.context.failure_manager.is_recovering(token.value.name)"
+                                and sorted(_u(x) for x in _no_log(top.body)) == ["is_available=False", "self.add(token)"])
+    if len(top.orelse) != 1 or not isinstance(top.orelse[0], ast.If):
+        raise TranslateError("build_graph: `elif is_available := …` branch not found")
+    mid = top.orelse[0]
+    d["stopOnAvailable"] = (_w(mid.test) == "is_available:=(awaittoken.is_available(context=self.context))"
+                            and [_u(x) for x in _no_log(mid.body)] == ["self.add(token)"])
+    rest = _no_log(mid.orelse)
+    if len(rest) != 1 or not isinstance(rest[0], ast.If):
+        raise TranslateError("build_graph: the not-available branch is not `if prev_tokens := …: … else: raise`")
+    dep = rest[0]
+    d["dependeesFromProvenance"] = _w(dep.test) == "prev_tokens:=(awaitload_dependee_tokens(token.persistent_id,loading_context))"
+    els = _no_log(dep.orelse)
+    d["raisesWithoutDependees"] = len(els) == 1 and isinstance(els[0], ast.Raise) and "FailureHandlingException" in _u(els[0])
+    fb = _no_log(dep.body)
+    ok = len(fb) == 1 and isinstance(fb[0], ast.For) and _u(fb[0].iter) == "prev_tokens" and _u(fb[0].target) == "prev_token"
+    d["edgeDependeeToToken"] = d["enqueueSkipsVisited"] = d["enqueueSkipsFrontier"] = d["enqueueAppends"] = False
+    if ok:
+        inner = _no_log(fb[0].body)
+        d["edgeDependeeToToken"] = len(inner) >= 1 and _u(inner[0]) == "self.add(prev_token,token)"
+        conds = [s for s in inner if isinstance(s, ast.If)]
+        if len(inner) == 2 and len(conds) == 1 and isinstance(conds[0].test, ast.BoolOp) and isinstance(conds[0].test.op, ast.And):
+            parts = [_u(v) for v in conds[0].test.values]
+            d["enqueueSkipsVisited"] = "prev_token.persistent_idnotinself.info_tokens.keys()" in parts
+            d["enqueueSkipsFrontier"] = "notcontains_persistent_id(prev_token.persistent_id,token_frontier)" in parts
+            d["enqueueAppends"] = len(parts) == 2 and [_u(x) for x in _no_log(conds[0].body)] == ["token_frontier.append(prev_token)"] and not conds[0].orelse
+    last = lb[-1]
+    d["visitedRecordedAtEndOfIteration"] = (isinstance(last, ast.Expr) and _u(last).startswith("self.info_tokens.setdefault(token.persistent_id,ProvenanceToken(")
+                                            and "is_available=is_available" in _u(last))
+    return d
+
+
+FIELDS = ["frontierFromInputs", "inputsAreNodes", "fifo", "stopOnRecoveringJob", "stopOnAvailable", "dependeesFromProvenance",
+          "raisesWithoutDependees", "edgeDependeeToToken", "enqueueSkipsVisited", "enqueueSkipsFrontier", "enqueueAppends",
+          "visitedRecordedAtEndOfIteration"]
+
+
 def generate(repo: str) -> tuple[str, str]:
-    fn = parse_function(os.path.join(repo, "streamflow/persistence/sqlite.py"), "add_provenance", cls="SqliteDatabase")
-    args = [a.arg for a in fn.args.args]
-    if args[:3] != ["self", "inputs", "token"]:
-        raise TranslateError(f"add_provenance: unexpected parameters {args}")
-    sqls = [n.value for n in find_nodes(fn, ast.Constant) if isinstance(n.value, str) and "provenance" in n.value.lower()]
-    if len(sqls) != 1:
-        raise TranslateError("add_provenance: the INSERT statement was not found exactly once")
-    m = re.search(r"provenance\s*\(\s*(\w+)\s*,\s*(\w+)\s*\)\s*VALUES\s*\(\s*\?\s*,\s*\?\s*\)", sqls[0], re.I)
-    if not m or {m.group(1).lower(), m.group(2).lower()} != {"dependee", "depender"}:
-        raise TranslateError(f"add_provenance: unexpected INSERT `{sqls[0]}`")
-    cols_dependee_first = m.group(1).lower() == "dependee"
-    comps = find_nodes(fn, ast.ListComp)
-    if len(comps) != 1 or not isinstance(comps[0].elt, ast.Tuple) or len(comps[0].elt.elts) != 2:
-        raise TranslateError("add_provenance: the list of row tuples was not found")
-    comp = comps[0]
-    if ast.unparse(comp.generators[0].iter) != "inputs" or comp.generators[0].ifs:
-        raise TranslateError("add_provenance: the rows are not built from every element of `inputs`")
-    var = ast.unparse(comp.generators[0].target)
-    first, second = (ast.unparse(e) for e in comp.elt.elts)
-    if {first, second} != {var, "token"}:
-        raise TranslateError(f"add_provenance: unexpected row tuple ({first}, {second})")
-    tuple_input_first = first == var
-    # a row is (dependee, depender) = (input id, new token id) iff the tuple order matches the column order
-    row_dependee_is_input = tuple_input_first == cols_dependee_first
-    # ---- _persist_token ------------------------------------------------------------------------------------
-    pt = parse_function(os.path.join(repo, "streamflow/workflow/step.py"), "_persist_token", cls="BaseStep")
-    calls = [n for n in ast.walk(pt) if isinstance(n, ast.Await) and isinstance(n.value, ast.Call)]
-    order = []
-    for c in sorted(calls, key=lambda n: (n.lineno, n.col_offset)):
-        name = ast.unparse(c.value.func)
-        if name.endswith("token.save"):
-            order.append("save")
-        elif name.endswith("add_provenance"):
-            order.append("prov")
-            kw = {k.arg: ast.unparse(k.value) for k in c.value.keywords}
-            if kw.get("inputs") != pt.args.args[3].arg or kw.get("token") != "token.persistent_id":
-                raise TranslateError(f"_persist_token: add_provenance is called with {kw}")
-    if order not in (["save", "prov"], ["prov", "save"]):
-        raise TranslateError(f"_persist_token: expected one token.save and one add_provenance, found {order}")
-    saves_first = order == ["save", "prov"]
-    none_raises = any(isinstance(n, ast.If) and "is None" in ast.unparse(n.test) and any(isinstance(b, ast.Raise) for b in n.body)
-                      for n in ast.walk(pt))
-    text = f"""/-! GENERATED by harness/sfv/translate/provguards.py from streamflow/persistence/sqlite.py and streamflow/workflow/step.py —
-do not edit. -/
+    d = extract(repo)
+    fields = "\n".join(f"  {k} : Bool" for k in FIELDS)
+    vals = ", ".join(f"{k} := {'true' if d[k] else 'false'}" for k in FIELDS)
+    text = f"""/-! GENERATED by harness/sfv/translate/provguards.py from streamflow/recovery/utils.py (ProvenanceGraph.build_graph) — do not edit. -/
 namespace SFV.Gen
 
-/-- `add_provenance` writes, for every input id `i`, the row (dependee := i, depender := the new token's id) -/
-def provRowDependeeIsInput : Bool := {'true' if row_dependee_is_input else 'false'}
-/-- `_persist_token` saves the token (fresh id) before it records the provenance rows -/
-def persistSavesBeforeProvenance : Bool := {'true' if saves_first else 'false'}
-/-- `_persist_token` raises when one of the input ids is `None` (an input that was never persisted) -/
-def persistRejectsUnpersistedInput : Bool := {'true' if none_raises else 'false'}
+/-- the statements of `build_graph` the model `SFV/Model/ProvGraph.lean` transcribes, each re-read from the source -/
+structure ProvShape where
+{fields}
+deriving DecidableEq, Repr
+
+def provShape : ProvShape := {{ {vals} }}
 
 end SFV.Gen
 """
